@@ -2,6 +2,10 @@
 import random
 import asmgen, asmcommon
 
+# parts of an assembly result the property does not speak about: a difference in these alone breaks the
+# correspondence but is not an input on which the property fails (reported with no-failing-input-found)
+AUX = ('bps', 'image', 'verdict')
+
 ASSUMPTIONS = [
     "miette's rendering of a diagnostic is third-party code: exercised on every rejection (format!(\"{:?}\")), not modelled",
     "allocation limits / stack depth for huge inputs are outside the model",
@@ -72,7 +76,7 @@ def gen_cases(tier, seed):
 def correspondence(ctx, violations, known_hits):
     cases, tags = gen_cases(ctx.tier, ctx.seed)
     profiles = ("debug",) if ctx.tier == "quick" else ("debug", "release")
-    r = asmcommon.run_asm_cases(ctx, cases, tags, violations, profiles,
+    r = asmcommon.run_asm_cases(ctx, cases, tags, violations, profiles, aux=AUX,
                                 prop_note="the model never panics (C05_total); an implementation panic/crash, or a diagnostic whose span lies outside the source, violates C05")
     ctx.cleanup()
     return {
